@@ -1203,8 +1203,15 @@ def op_expand(w, s):
         return "skipped"
     src.compress_config = CompressConfig(CompressCriteria.fixed, max_bonddim=int(s["m"]))
     bonds_in = list(src.bond_dims)
+    from simlab.chain_evolve import expand_budget
     try:
-        res = expand_bond_dimension_general(src, hint_mpo=eh.obj)
+        with expand_budget():
+            res = expand_bond_dimension_general(src, hint_mpo=eh.obj)
+    except StepBudgetExceeded:
+        w.stats.probes["expand_loop_budget_exceeded"] += 1
+        w.changed.add(a)
+        w.check_value(a, {"C13"}, "C13.bystander_or_input_changed", what="input of an abandoned expand call")
+        return "skipped"
     except Exception as ex:
         w.stats.probes["tree_expand_failed:" + type(ex).__name__] += 1
         w.changed.add(a)
@@ -1291,7 +1298,8 @@ def op_optimize(w, s):
         raise V({"C08"}, "C08.tree.energy_mismatch", f"last reported energy {float(e_list[-1])!r} but the returned state has energy {en_state!r} (algo {s['algo']}, procedure {proc})", sig=f"C08.tree.energy_mismatch:{s['algo']}")
     conv = len(e_list) >= 3 and abs(float(e_list[-1]) - float(e_list[-2])) <= tol
     w.stats.probes["tree_optimize:" + s["algo"] + (":full" if full and caps_ok else "")] += 1
-    if full and caps_ok and conv and proc[-1][1] == 0 and (s["algo"] == "direct" or ov > 1e-3):
+    # (iterative solvers stop on ABSOLUTE residual / energy-change thresholds: equality is only demanded for operators of ordinary size)
+    if full and caps_ok and conv and proc[-1][1] == 0 and (s["algo"] == "direct" or (ov > 1e-3 and hn >= 0.1)):
         gap = float(e_list[-1]) - evals[0]
         w.stats.ratio("C08.tree.exact_at_full_rank", gap, 10 * tol)
         if gap > 10 * tol and not CALIBRATE:
